@@ -304,7 +304,7 @@ impl<'a> Run<'a> {
                 if self.cfg.pressure {
                     self.counts.inc("reads_absent_under_pressure");
                 } else {
-                    let props: &[&'static str] = if state == KeyState::LiveTtl { &["C03", "C09", "C10"] } else { &["C03"] };
+                    let props: &[&'static str] = if state == KeyState::LiveTtl { &["C03", "C09", "C10", "C08"] } else { &["C03", "C08", "C10"] };
                     self.fail(props, format!("C03/live-key-reads-absent/{}/{}", state.name(), variant),
                               format!("{} of key {} returned absent although it was accepted, not deleted, not expired and there is no memory pressure ({})", variant, key, context));
                 }
@@ -381,7 +381,7 @@ impl<'a> Run<'a> {
                                         self.crit("key-swept");
                                     }
                                     other => {
-                                        self.fail(&["C10", "C03"], format!("C10/swept-a-key-that-is-not-expired/expiry={}", if other.is_some() { "future" } else { "none" }),
+                                        self.fail(&["C10", "C03", "C08", "C09"], format!("C10/swept-a-key-that-is-not-expired/expiry={}", if other.is_some() { "future" } else { "none" }),
                                                   format!("the sweeper evicted id {} of key {} at clock {} although its current expiry is {:?}", id, key, sweep_now, other));
                                     }
                                 }
@@ -446,7 +446,9 @@ impl<'a> Run<'a> {
                             }
                         }
                     }
+                    let judge_index = matches!(self.cfg.focus, "C10" | "C05");
                     match (entry.expiry, index.get(&id)) {
+                        _ if !judge_index => {}
                         (Some(expiry), Some((shard, indexed))) => {
                             let expected_shard = ((expiry / NS as u128) % self.cfg.sut.shards as u128) as usize;
                             if *indexed != expiry || *shard != expected_shard {
